@@ -52,7 +52,7 @@ LEVEL_TEXT = ("Sampled tree states x commands on real 2a (and git for revert / "
 LEVEL_NOTE = ("Only regular-file contents are precious (symlink targets and "
               "directories are not); content that an earlier merge wrote, "
               "including .THIS helper files, is unprotected by the statement.")
-REGISTERED = False
+REGISTERED = True
 NONTRIVIAL_FLOOR = {"quick": 120, "thorough": 3000}
 
 LINES = ["one\n", "two\n", "three\n", "four\n", "five\n", "six\n", "seven\n"]
